@@ -318,7 +318,7 @@ func c03Garble(dir string, r *Rng, t *Trace) {
 }
 
 func runC03(t *Trace, r *Rng, tier string, _ []string) {
-	workloads, cycles := 6, 5
+	workloads, cycles := 8, 5
 	if tier == "thorough" {
 		workloads, cycles = 24, 8
 	}
@@ -332,9 +332,9 @@ func runC03(t *Trace, r *Rng, tier string, _ []string) {
 		dir := filepath.Join(root, fmt.Sprintf("w%d", wl))
 		evlog := filepath.Join(root, fmt.Sprintf("w%d.ev", wl))
 		K := 2 + r.Intn(2)
-		W := 1 + wl%2
+		W := 1 + (wl/2)%2 // both modes meet one and two writers
 		mode := "safe"
-		if wl%3 == 2 {
+		if wl%2 == 1 {
 			mode = "unsafe"
 		}
 		ci := r.Intn(12)
